@@ -570,6 +570,44 @@ example : ∃ m k m' k' : ℕ, Scaled.fdiv (Scaled.ofNat 2) (Scaled.ofNat 7) = (
     Scaled.fdiv (Scaled.ofNat 5) (Scaled.ofNat 7) = (m', -(k' : ℤ)) ∧ m * 2 ^ k' ≤ m' * 2 ^ k :=
   ratio_binary64_mono 2 5 7 (by decide) (by decide) (by decide) (by decide)
 
+/-! ### the C API
+
+`kmerminhash_jaccard`, `_angular_similarity`, `_similarity` and `_count_common` pass the `Result` of
+the method of the same name through the landing pad, so the theorems above are about them verbatim
+(container `.vec`).  `kmerminhash_intersection_union_size` has a body of its own: -/
+
+/-- C API, T-jaccard_pair (scaled): the pair written by `kmerminhash_intersection_union_size` -/
+theorem ffi_intersection_union_size_scaled (a b : Sketch)
+    (hc : checkCompatible a b = .ok ()) (hn : a.num = 0)
+    (ha : Sorted a.mins) (hb : Sorted b.mins) :
+    ffiIntersectionUnionSize a b = ((inter a.mins b.mins).length, (union a.mins b.mins).length) := by
+  unfold ffiIntersectionUnionSize
+  rw [jaccard_pair_scaled .vec a b hc hn ha hb]
+
+example : ffiIntersectionUnionSize exA exB = (2, 7) := by
+  rw [ffi_intersection_union_size_scaled exA exB rfl rfl (by decide) (by decide)]; rfl
+
+/-- C API, T-jaccard_pair (num) -/
+theorem ffi_intersection_union_size_num (a b : Sketch)
+    (hc : checkCompatible a b = .ok ()) (hn : a.num ≠ 0) (hm : a.maxHash = 0)
+    (ha : Sorted a.mins) (hb : Sorted b.mins) :
+    ffiIntersectionUnionSize a b = jaccardPair a.num a.mins b.mins := by
+  unfold ffiIntersectionUnionSize
+  rw [jaccard_pair_num .vec a b hc hn hm ha hb]
+
+example : ffiIntersectionUnionSize exNA exNB = (1, 3) := by
+  rw [ffi_intersection_union_size_num exNA exNB rfl (by decide) rfl (by decide) (by decide)]; rfl
+
+/-- C API: on incompatible sketches this export does not refuse, it answers `(0, 0)` (the error of
+    `intersection_size` is dropped) — outside the property's parameter space, recorded as it is -/
+theorem ffi_intersection_union_size_incompatible (a b : Sketch) (e : Err)
+    (hc : checkCompatible a b = .error e) : ffiIntersectionUnionSize a b = (0, 0) := by
+  unfold ffiIntersectionUnionSize intersectionSize
+  rw [hc]; rfl
+
+example : ffiIntersectionUnionSize exA { exB with ksize := 31 } = (0, 0) :=
+  ffi_intersection_union_size_incompatible exA { exB with ksize := 31 } .MismatchKSizes rfl
+
 /-! ### the standing hypotheses discharged by C01 for sketches built through the API
 
 Every theorem above takes `Sorted a.mins` (hashes strictly increasing) and, for abundance walks,
